@@ -340,6 +340,19 @@ def run(ck, P):
             ck.ob("C01.6-HANDLER-RUNNING", f.site("call_pubsub_cb(%s)" % marg), ok,
                   "delivery at line %d with facts %s" % (ev.line, fmt_facts(facts)))
 
+    # an empty batch never reaches the handler: flush_pubsub_msgs delivers whatever it collected, which is nothing at all for a
+    # module that is not RUNNING (its messages are dropped or left alone), so the emptiness test inside call_pubsub_cb is what keeps
+    # the handler of a non-RUNNING module from being run with an empty queue at every loop stop
+    cpc = P.fn("call_pubsub_cb")
+    qpar = cpc.params[1]["name"] if len(cpc.params) > 1 else "evts"
+    for ev in rules.indirect_calls(P, cpc, "USERCB"):
+        facts = X.facts(cpc, ev)
+        ok = any(has(facts, a, pol) for a, pol in (("m_queue_len(%s)" % qpar, True), ("(m_queue_len(%s) > 0)" % qpar, True),
+                                                  ("(m_queue_len(%s) != 0)" % qpar, True), ("(m_queue_len(%s) >= 1)" % qpar, True)))
+        ck.ob("C01.6-HANDLER-RUNNING", cpc.site("non-empty-batch@%d" % ev.line), ok,
+              "the handler at line %d runs only for a non-empty batch (flush_pubsub_msgs delivers an empty one for every module "
+              "that is not RUNNING); facts %s" % (ev.line, fmt_facts(facts)))
+
     # ------------------------------------------------------------------ 7. per-module passes cannot be aborted
     ck.rule("C01.7-ITERZERO", "R-ITER-ZERO: a function bound to the callback slot of m_map_iterate over a context's module map "
             "returns 0 on every path (m_map_iterate stops at the first non-zero result), so no module's outcome aborts the pass",
